@@ -217,41 +217,58 @@ impl Monitor for Mon17 {
         out.count("engine.limit_experiments");
         self.near_limit += 1;
         let kind = format!("{}:{:?}", act.name(), eff);
-        // (2) limit exactly at the executed amount: identical outcome
-        let r1 = it.exec_act(&with_limit(act, executed));
-        let post1 = crate::hist::observe(&it.w);
-        it.w.restore(&snap);
-        if !r1.ok || post1 != post0 {
-            return Some(
-                Violation::new(
-                    "engine_limit_at_executed_amount",
-                    format!("{} ({}): without limit it exchanges {}; with limit = {} the call {} (state equal to the unlimited run: {})", act.name(), kind, executed, executed, if r1.ok { "succeeds" } else { "fails" }, post1 == post0),
-                )
-                .with("kind", kind)
-                .with("receives", receives),
-            );
+        // (2) limits the executed amount satisfies - exactly at it, and far on the satisfied side: identical outcome
+        let own_size = pre.pos[v][t].as_ref().map(|p| p.size.value.u128()).unwrap_or(0);
+        let good: Vec<u128> = if receives { vec![executed, (executed / 2).max(1), 1] } else { vec![executed, executed.saturating_mul(2), executed.saturating_add(own_size).saturating_add(1), u128::MAX / 4] };
+        for (k, g) in good.iter().enumerate() {
+            if k > 0 && *g == executed {
+                continue;
+            }
+            let r1 = it.exec_act(&with_limit(act, *g));
+            let post1 = crate::hist::observe(&it.w);
+            it.w.restore(&snap);
+            if !r1.ok || post1 != post0 {
+                return Some(
+                    Violation::new(
+                        "engine_limit_at_executed_amount",
+                        format!("{} ({}): without limit it exchanges {}; with limit = {} ({}) the call {} (state equal to the unlimited run: {})", act.name(), kind, executed, g, if receives { "receive at least" } else { "give at most" }, if r1.ok { "succeeds" } else { "fails" }, post1 == post0),
+                    )
+                    .with("kind", kind)
+                    .with("receives", receives)
+                    .with("far", k > 0),
+                );
+            }
         }
-        // (3) one unit on the failing side: must be refused, nothing changes
-        let bad = if receives { executed + 1 } else { executed - 1 };
-        if bad == 0 {
-            return None;
-        }
-        let d0 = it.w.dump();
-        let r2 = it.exec_act(&with_limit(act, bad));
-        let changed = it.w.dump() != d0;
-        it.w.restore(&snap);
-        if r2.ok {
-            return Some(
-                Violation::new(
-                    "engine_limit_not_applied",
-                    format!("{} ({}): the trade exchanges {} but succeeded with limit {} ({}): the caller's limit was not applied", act.name(), kind, executed, bad, if receives { "receive at least" } else { "give at most" }),
-                )
-                .with("kind", kind)
-                .with("receives", receives),
-            );
-        }
-        if changed {
-            return Some(Violation::new("refused_trade_changed_state", format!("{} refused for its limit but storage changed", act.name())).with("kind", kind));
+        // (3) limits the executed amount does not satisfy - one unit beside it, and far on the failing side (beyond the trader's
+        // own position size, the pool's depth): must be refused, nothing changes
+        let pool_base = st0.base_asset_reserve.u128();
+        let bad: Vec<u128> = if receives {
+            vec![executed + 1, executed.saturating_mul(2).saturating_add(1), own_size.max(executed).saturating_add(1), pool_base.max(executed).saturating_add(1)]
+        } else {
+            vec![executed - 1, executed / 2, 1]
+        };
+        for (k, b) in bad.iter().enumerate() {
+            if *b == 0 || (k > 0 && *b == bad[0]) || (receives && *b <= executed) || (!receives && *b >= executed) {
+                continue;
+            }
+            let d0 = it.w.dump();
+            let r2 = it.exec_act(&with_limit(act, *b));
+            let changed = it.w.dump() != d0;
+            it.w.restore(&snap);
+            if r2.ok {
+                return Some(
+                    Violation::new(
+                        "engine_limit_not_applied",
+                        format!("{} ({}): the trade exchanges {} but succeeded with limit {} ({}): the caller's limit was not applied", act.name(), kind, executed, b, if receives { "receive at least" } else { "give at most" }),
+                    )
+                    .with("kind", kind)
+                    .with("receives", receives)
+                    .with("far", k > 0),
+                );
+            }
+            if changed {
+                return Some(Violation::new("refused_trade_changed_state", format!("{} refused for its limit but storage changed", act.name())).with("kind", kind));
+            }
         }
         None
     }
@@ -281,6 +298,8 @@ impl Property for C17 {
         p.caps = true;
         let mut w = Weights::trading();
         w.whitelist = 3;
+        // the pauser role changes hands: to a trading account and back (holding a role is not being whitelisted)
+        w.handover = 2;
         w.vcfg = 2;
         w.close = 18;
         w.squeeze = 2;
@@ -297,7 +316,7 @@ impl Property for C17 {
         tier.pick(120_000, 3_000_000)
     }
     fn rule(&self) -> String {
-        "vAMM level (15/16 of the cases): generated reserve pairs and swap histories as in C01; at every step the InputAmount/OutputAmount answer in the pre-state is compared with what the same swap exchanges (reserve deltas and event attributes), the requested side must move by exactly the requested amount, and the same swap is re-executed from the same pre-state with a limit of executed-1 / executed / executed+1 / half / double: it must execute (with an identical post-state) iff the executed amount satisfies the limit by direction, and a refusal must leave raw storage unchanged. Engine level (1/16): generated engine histories; every OpenPosition that opens / increases / reduces and every whole ClosePosition is run on a what-if copy without limit to learn the exchanged base (resp. quote) amount, then from the same pre-state with the limit exactly at that amount (must succeed with an identical observable state) and one raw unit on the failing side (must fail, dump unchanged). Reversals, partial closes and liquidations have no clause in the statement and are counted only. Non-trivial: vAMM: a swap with non-zero division remainder and a limit within +-1 of the executed amount; engine: >= 2 limit experiments in the history. Distinct by digest of the case. Zero-amount swaps are outside the domain (no caller of the vAMM sends one).".into()
+        "vAMM level (15/16 of the cases): generated reserve pairs and swap histories as in C01; at every step the InputAmount/OutputAmount answer in the pre-state is compared with what the same swap exchanges (reserve deltas and event attributes), the requested side must move by exactly the requested amount, and the same swap is re-executed from the same pre-state with a limit of executed-1 / executed / executed+1 / half / double: it must execute (with an identical post-state) iff the executed amount satisfies the limit by direction, and a refusal must leave raw storage unchanged. Engine level (1/16): generated engine histories; every OpenPosition that opens / increases / reduces and every whole ClosePosition is run on a what-if copy without limit to learn the exchanged base (resp. quote) amount, then from the same pre-state with limits the executed amount satisfies (exactly at it; far on the satisfied side: half / one unit when receiving, double / beyond the position size / huge when giving: must succeed with an identical observable state) and limits it does not satisfy (one raw unit beside it; far on the failing side: double, beyond the trader's own position size, beyond the pool's depth / half, one unit: must fail, dump unchanged). Reversals, partial closes and liquidations have no clause in the statement and are counted only. Non-trivial: vAMM: a swap with non-zero division remainder and a limit within +-1 of the executed amount; engine: >= 2 limit experiments in the history. Distinct by digest of the case. Zero-amount swaps are outside the domain (no caller of the vAMM sends one).".into()
     }
     fn assumptions(&self) -> Vec<String> {
         vec!["'honoured' is read in both directions: the limit is the only thing a limit may influence, so a swap whose limit is satisfied must behave exactly like the unlimited swap from the same state".into()]
